@@ -3,13 +3,14 @@
 Proof: Props/C09.lean — waits_cover_ctx_and_conn (decided over the blocking points read from the AST on every run),
 returns_after_cancel / slot_chain_drains (every peer behaviour), close protocol invariants for every interleaving.
 Tie: T — Generated/BlockingWaits.lean (primary); X — the interruption grid on real udp/tcp connections (in-memory
-transports, synctest): operation x interruption point x cause, then concurrent Close from three goroutines.
+transports, synctest): operation x interruption point x cause, then concurrent Close from three goroutines;
+stream writes stalled by a peer that stopped reading (real time); source facts closeTakesWriteLock / writeArmsDeadline.
 """
 import random
 
 from . import common
 
-MODULES = ["CoapVerif.Props.C09"]
+MODULES = ["CoapVerif.Props.C09", "CoapVerif.Findings.C09"]
 GENERATED = ["BlockingWaits.lean"]
 OPS = ["get", "observe", "obscancel", "ping", "write"]
 POINTS = ["pre", "sent", "acked", "queued", "midblock"]
@@ -20,6 +21,8 @@ def explore(ctx, art):
     lines = ["case %s %s %s %s" % (t, o, p, c) for t in ("udp", "tcp") for o in OPS for p in POINTS for c in CAUSES]
     if ctx.tier == "thorough":
         lines = lines * 3     # the scheduler inside a bubble is not seeded: repeat the grid
+    # "during send": the stream peer has stopped reading, the frame write is blocked in the transport (real time)
+    lines += ["case tcp %s stalled %s" % (o, c) for o in OPS for c in CAUSES]
     impl = common.run_test_harness(ctx, art["test"], "TestC09", lines, timeout=1500)
     if impl is None or len(impl) != len(lines):
         return
@@ -47,7 +50,8 @@ def explore(ctx, art):
     ctx.cov["traces_validated_against_impl"] = len(lines)
     ctx.cov["exhaustive"] = True
     ctx.cov["rule"] = ("the complete grid {udp, tcp} x {get, observe, observation cancel, ping, one-way write} x {before send, after send, after ACK, "
-                       "queued behind the limiter (limit 1), mid block-wise transfer} x {cancel, deadline, local close, peer close, garbage}; "
+                       "queued behind the limiter (limit 1), mid block-wise transfer} x {cancel, deadline, local close, peer close, garbage}, plus tcp x "
+                       "op x {frame write blocked because the peer stopped reading} x cause (real time, bound 0.5 s); "
                        "every case is distinct; each ends with Close from three goroutines + one more Close, checking the done signal and that two "
                        "registered on-close callbacks ran exactly once. Bound: the call must return within 1 ms of virtual time after the cause.")
     for l, o in list(zip(lines, impl))[:3]:
